@@ -43,6 +43,10 @@ claims={
    text="Every $dnsrewrite loader and every registered record-type handler is proved to return either an error with a nil rewrite or a rewrite satisfying the published shape predicate (CNAME carries nothing else; a record type only with RCODE success; dynamic type of the value determined by the record type; PTR values end in a dot), for all input strings; each handler is checked against the contract of the handler function type under the key it is registered with in the package initialiser, and the dispatch in loadDNSRewriteNormal uses only that contract. All index, slice, nil and type-assertion obligations of these functions are discharged (no crash).",
    note=TB+"; netip.ParseAddr/Is4, strconv.ParseUint, dns.Fqdn, strings.Split enter as assumed contracts; the key set of dnsRewriteRRHandlers is read from the package initialiser and the map is checked syntactically never to be written elsewhere.",
    ref="5 C10", tech="contract-based deductive verification: WP over go/ssa, function-type contract with refinement obligations"),
+ "C20":dict(level="proof",
+   text="findBodyInjectionIndex is proved (loop invariant, any body length) to return the first position inside the inspected prefix - the first min(16384, len) characters - at which one of the four markers occurs case-insensitively, or -1 when there is none; filterHTML is proved to publish, on success, a body equal to the transcoding of T when there is no injection point and of T[:i] + tag + T[i:] at the injection point i otherwise (T = the decompressed body transcoded from Latin-1; exactly one splice, nothing dropped or duplicated), and a ContentLength equal to the length of that new body; all slice/index/nil obligations of the three functions are discharged.",
+   note=TB+"; gzip and the Latin-1 codec (proxyutil.ReadDecompressedBody/DecodeLatin1/EncodeLatin1), bytes.NewReader, io.NopCloser, Header.Del, strings.EqualFold and math.Min are assumed contracts that only NAME their results through ghost functions; that the codec maps each original byte to one character and back (so that the statement about T is the statement about the original bytes, and the 16 KiB window is measured on T) is the documented behaviour of the codec and is not machine-checked; floats are mathematical reals; the tag is whatever buildInjectionCode returns (named, not specified). filterHTML's precondition (a response with a body and a header map) is the caller's obligation (onResponse is not under contract).",
+   ref="5 C20", tech="contract-based deductive verification: WP over go/ssa, loop invariant, ghost functions for library values, SMT portfolio"),
  "C16":dict(level="proof",
    text="GetCosmeticOption is proved equal to the specification 'All minus the union of what each exception modifier disables' for all 2^64 option masks (hence all 2^9 subsets of the property) and for absent / non-exception basic rules; shrinking and monotonicity are lemmas over the specification.",
    note=TB, ref="5 C16", tech="contract-based deductive verification: WP over go/ssa, QF_BV obligations"),
